@@ -95,13 +95,16 @@ def check_par(tier, pid, chk=None):
     nontrivial = set(); samples = []
     agree = 0; dis = []
     cases = []   # (I, ps_line, opt_index, kind)
-    nsys = (6 if tier == "quick" else 40); nrand = (30 if tier == "quick" else 300)
+    nsys = (6 if tier == "quick" else 40); nrand = ((60 if pid != "C03" else 30) if tier == "quick" else 400)
     insts = []
     for i in range(nsys + nrand):
         r = rng.fork()
         small = i < nsys
-        I = gen_layered(r, nvars=r.range(3, 4) if small else r.range(3, 6), per_layer=r.range(2, 3) if small else r.range(2, 4),
-                        dom_max=r.range(2, 3), dominance=0 if i % 3 else None)
+        if small or i % 2 == 0:
+            I = gen_layered(r, nvars=r.range(3, 4) if small else r.range(3, 6), per_layer=r.range(2, 3) if small else r.range(2, 4),
+                            dom_max=r.range(2, 3), dominance=0 if i % 3 else None)
+        else:   # larger searches: several sub-problems open at the same time (needed for two workers to hold nodes simultaneously)
+            I = gen_layered(r, nvars=r.range(5, 7), per_layer=r.range(3, 5), dom_max=r.range(2, 3), dominance=0, rub=r.choice([0, 0, 3]), dead=False)
         insts.append(I)
     opts = oracle_batch([(I.line(), ["O opt"]) for I in insts])
     cfgs = [(0, 0, 0, 1), (1, 0, 1, 1), (0, 1, 0, 1), (2, 0, 0, 1), (1, 1, 1, 2)]
@@ -122,7 +125,7 @@ def check_par(tier, pid, chk=None):
     # ---- random schedules (PCT-like: random choices at every decision), more threads, cutoffs, thread counts != ctor
     for i in range(nsys, nsys + nrand):
         I = insts[i]
-        for rep in range(3):
+        for rep in range(3 if i % 2 == 0 else 8):
             T = rng.choice([1, 2, 2, 3, 4] if pid == "C03" else [1, 2, 3, 4, 6, 8])
             ctor = T
             if pid == "C04" and rng.chance(1, 2):
@@ -130,7 +133,8 @@ def check_par(tier, pid, chk=None):
             flv, cache, fr, w = rng.choice(cfgs)
             dom = 1 if (I.domkind == 1 and rng.chance(1, 2)) else 0
             cut = 0
-            if pid in ("C04", "C05") and rng.chance(2, 3): cut = rng.range(1, 40)
+            if pid in ("C04", "C05") and rng.chance(2, 3): cut = rng.range(8, 70) if i % 2 else rng.range(1, 40)
+            if i % 2 and pid in ("C04", "C05"): T = rng.choice([2, 2, 3, 4]); ctor = T
             ch = [rng.below(8) for _ in range(rng.range(0, 80))]
             cases.append((i, ps_line(T, ctor, flv, cache, fr, w, cut, dom, ch), "rand", None))
             stats["random_schedules"] += 1
@@ -146,6 +150,7 @@ def check_par(tier, pid, chk=None):
         tr, en = parse_trace(f)
         stats["decisions"] += len(tr)
         if any(len(e) < T for e in en[1:]): stats["runs_with_parked_worker"] += 1
+        if f.get("trace", "").count("abort_search") >= 2: stats["runs_with_two_aborts"] = stats.get("runs_with_two_aborts", 0) + 1
         if len(set(w for w, _ in tr)) > 1: nontrivial.add(case + I.line()[:50])
         if len(samples) < 5 and stats["runs"] % 397 == 1: samples.append(describe(I, case, oi, om, optimum=opt))
         ctx = describe(I, case, oi, om, optimum=opt, schedule_kind=kind)
